@@ -280,3 +280,14 @@ def full_cross_product_sample(fl: int, ci: int, mi: int, ei: int, ti: int, ski: 
 
 
 from vf.validate.stubs import ALL as VALIDATE  # noqa: E402  (stub-vs-real conformance, run before the obligations)
+
+
+@cond(thorough=dict(timeout=1500, parts=dict(FL=[0, 1], M=[0, 1, 2, 3, 4, 5])))
+def full_cross_product(fl: int, ci: int, mi: int, ei: int, ti: int, ski: int, ui: int, ji: int) -> str:
+    """
+    pre: fl == P.FL and mi == P.M and 0 <= ci < len(CFGS) and 0 <= ei < len(EIOS) and 0 <= ti < len(TRANSPORTS)
+    pre: 0 <= ski < len(SIDKINDS) and 0 <= ui < 3 and 0 <= ji < len(JS)
+    post: _ == ''
+    """
+    # thorough tier only: the whole product method x EIO x transport x session kind x headers x JSONP index x configuration
+    return verdict(untraced(_admission, fl, ci, mi, ei, ti, ski, ui, ji))
